@@ -409,7 +409,7 @@ def run(ctx):
 
 
 META = {
-    "ready": False,
+    "ready": True,
     "category": "proof",
     "technique": "Rocq refinement/invariant proofs over executable mailbox models + sequential differential + schedule enumeration over instrumented sources",
     "text": "Executable Gallina models of the nine mailboxes as coded; theorems for all op sequences / all interleavings of any number of producers with one consumer; the real mailboxes are run on generated op sequences (compared with the Coq models by vm_compute and with an independent oracle), under context-bounded schedule enumeration over yield points inserted before every atomic operation, and under real-goroutine stress.",
